@@ -527,6 +527,19 @@ func c11EOFIsOK(err error) error {
 }
 
 func init() {
+	// --- self-test of the out-of-memory classification (not decoders of the library)
+	c11Register("selftest.runaway", func(in []byte) (c11Val, error) {
+		var keep [][]byte
+		for {
+			keep = append(keep, make([]byte, 4096))
+		}
+	})
+	c11Register("selftest.hostile", func(in []byte) (c11Val, error) {
+		a := make([]byte, 230<<20)
+		a[0], a[len(a)-1] = 1, 1
+		b := make([]byte, 2000<<20)
+		return c11Val{nvals: len(a) + len(b)}, nil
+	})
 	// --- BGZF
 	for _, rd := range []int{1, 2} {
 		rd := rd
